@@ -208,27 +208,10 @@ func (p *Parser) parseUpdateStatement() (ast.Statement, error) {
 		}
 		p.advance() // Consume =
 
-		// Parse value expression
-		var expr ast.Expression
-		if p.isStringLiteral() {
-			expr = &ast.LiteralValue{Value: p.currentToken.Literal, Type: "string"}
-			p.advance()
-		} else if p.isNumericLiteral() {
-			litType := "int"
-			if strings.ContainsAny(p.currentToken.Literal, ".eE") {
-				litType = "float"
-			}
-			expr = &ast.LiteralValue{Value: p.currentToken.Literal, Type: litType}
-			p.advance()
-		} else if p.isBooleanLiteral() {
-			expr = &ast.LiteralValue{Value: p.currentToken.Literal, Type: "bool"}
-			p.advance()
-		} else {
-			var err error
-			expr, err = p.parseExpression()
-			if err != nil {
-				return nil, err
-			}
+		// Parse value expression (a literal is an expression too: SET a = 1 + 2)
+		expr, err := p.parseExpression()
+		if err != nil {
+			return nil, err
 		}
 
 		// Create update expression
